@@ -308,6 +308,8 @@ class Harness(cm.BaseA):
             for cls in ("EvoWorklist", "FluentWorklist"):
                 out.append({"set": sname, "labware": mk(), "worklists": {"w": {"cls": cls, "max_volume": 50, "auto_split": True}}})
         for cls in ("EvoWorklist", "FluentWorklist"):
+            out.append({"set": "W1", "labware": cm.W1(), "worklists": {"w": {"cls": cls, "max_volume": 50, "auto_split": True, "diti_mode": True}}, "maxdepth": 1})
+            out.append({"set": "W4", "labware": cm.W4(), "worklists": {"w": {"cls": cls, "max_volume": 950, "auto_split": True}}, "maxdepth": 1})
             out.append({"set": "W1", "labware": cm.W1(), "worklists": {"w": {"cls": cls, "max_volume": 33.5, "auto_split": True}}, "maxdepth": 1})
             out.append({"set": "W1", "inexact": True, "labware": cm.W1(), "worklists": {"w": {"cls": cls, "max_volume": 50, "auto_split": True}}, "maxdepth": 2})
         return out
